@@ -50,7 +50,7 @@ ASSUMPTIONS = [
     "midway_failure_not_wrong assumes the per-member digest is injective on the byte strings involved "
     "(Section hypothesis dg_inj; satisfiable: instance with the identity digest); CRC-32 is not injective in general",
     "dereference=False; modes w/x (append sessions start from the same machine with a non-empty prefix: C08)",
-    "symbolic links have relative targets (an absolute target that is itself archived is re-based by _find_link_target)",
+    "a symbolic link's target is relative, or absolute and not itself an archived source (which _find_link_target would re-base)",
     "writeall is judged as the sequence of its write() calls (members before the failing one stay)",
 ]
 
@@ -112,6 +112,11 @@ def tree_members(i):
     return [("", "dir", b""), ("c1", "file", bytes([97 + i]) * 8), ("s", "dir", b""), ("s/c3", "file", bytes([107 + i]) * 6)]
 
 
+def link_text(i):
+    """relative (kept as it is) for even calls, absolute and not archived itself for odd calls"""
+    return "/tmp" if i % 2 else "t%d" % i
+
+
 def call_members(i, shape):
     """[(id, arcname, kind, data)] of call i; kind in file/dir/link/data"""
     base = 10 * i
@@ -119,7 +124,7 @@ def call_members(i, shape):
         return [(base + j, "m%d" % base + ("/" + rel if rel else ""), kind, data)
                 for j, (rel, kind, data) in enumerate(tree_members(i))]
     kind = {"wfile": "file", "wdir": "dir", "wlink": "link"}.get(shape, "data")
-    data = b"" if kind == "dir" else (b"t%d" % i if kind == "link" else call_data(i))
+    data = b"" if kind == "dir" else (link_text(i).encode() if kind == "link" else call_data(i))
     return [(base, "m%d" % base, kind, data)]
 
 
@@ -332,8 +337,8 @@ def build_call(i, shape, fault, d, pt):
             pt.lstat[src] = fault
         return lambda z: z.write(src, arc)
     if shape == "wlink":
-        tgt = "t%d" % i
-        if fl not in ("dangling",):
+        tgt = link_text(i) if fl != "dangling" else "t%d" % i
+        if fl not in ("dangling",) and not os.path.isabs(tgt):
             with open(os.path.join(d, tgt), "wb") as fh:
                 fh.write(b"T")
         if fl != "missing":
